@@ -218,6 +218,18 @@ func tableGetMoved(c *core.Ctx, tbl map[string]string, key string) (string, bool
 	if r, ok := tableGet(tbl, key); ok {
 		return r, true
 	}
+	// the function the site stands in was renamed since the tables were written
+	if i := strings.Index(key, ":"); i > 0 {
+		if pk := c.P.PinnedName(key[:i]); pk != key[:i] {
+			if r, ok := tableGet(tbl, pk+key[i:]); ok {
+				return r + " [function renamed from " + pk + "]", true
+			}
+		}
+	} else if pk := c.P.PinnedName(key); pk != key {
+		if r, ok := tableGet(tbl, pk); ok {
+			return r + " [function renamed from " + pk + "]", true
+		}
+	}
 	split := func(k string) (string, string) {
 		i := strings.Index(k, ":")
 		if i < 0 {
@@ -414,4 +426,14 @@ func collLoops(pk *packages.Package, body *ast.BlockStmt) []collLoop {
 		return true
 	})
 	return out
+}
+
+// pinnedBare: the bare name of a function as the pinned tree knew it (the same name unless the
+// function was renamed since; see core/anchors.go).
+func pinnedBare(f *ssa.Function) string {
+	n := core.FuncName(f)
+	if i := strings.LastIndex(n, "."); i >= 0 {
+		n = n[i+1:]
+	}
+	return n
 }
